@@ -38,6 +38,9 @@ var c11SpacedKeys = []string{"a", "a ", " a", "b", "b\t", "c", "c\u00a0", "\nd"}
 // a namespace-like prefix: "ns:a" and "a" are different keys, neither stands for the other
 var c11ColonKeys = []string{"a", "ns:a", "b", "x:b", "c", "dc:c", "d", "ns:d"}
 
+// keys with characters that mean something in OTHER path notations (file paths, URLs, globs, JSON pointers)
+var c11SlashKeys = []string{"a", "a/b", "b", "content/type", "c/", "/d", "d", "e.g"[:1] + "~0", "c:\\x", "a|b", "q?", "x#y"}
+
 var c11NumericKeys = []string{"a", "0", "1", "b", "00", "c", "-1", "2"}
 
 func genMapsOnly(t *rapid.T, d int) map[string]interface{} {
@@ -182,6 +185,8 @@ func genC11(t *rapid.T) CaseC11 {
 		c11Keys = c11NumericKeys
 	case 2:
 		c11Keys = c11ColonKeys
+	case 3:
+		c11Keys = c11SlashKeys
 	}
 	c := CaseC11{Map: genMapsOnly(t, 3)}
 	c11Deep = 0
